@@ -271,3 +271,146 @@ def vc_array_update():
 
 
 T.group("array_update", vc_array_update, [(T.ARR, "Array._update"), (T.ARR, "Array.__len__"), (T.ARR, "get_shape_from_array"), ("xobjects/typeutils.py", "is_integer")], ["C10", "C11"])
+
+
+# ------------------------------------------------------------------------------------------------ Array._to_json, one-dimensional (C19)
+def vc_array_to_json():
+    """Array._to_json on a one-dimensional, reference-free array seen through a view: the list it returns has one entry per item,
+    in index order, the j-th entry being the item read through the item type at the documented address of item j (static items:
+    data offset + j * item size; dynamic items: the j-th word of the offset table).  `for v in self` uses python's sequence
+    protocol (Array defines no __iter__): __getitem__(0), __getitem__(1), ... until IndexError -- assumed; that __getitem__ raises
+    exactly for the first index outside the shape is group array_handle.  With the array writer's contract for list values
+    (groups array_writer*) the constructor applied to this list reproduces every item."""
+    from pyvc.core import _Mut, State, to_z3
+    from pyvc.core import fresh_name
+    from .sortclasses_vc import LoopSpecX
+
+    ARR = T.ARR
+    I = z3.IntSort()
+
+    class OutList(_Mut):
+        """`out`: a list of item reads, represented by the addresses read"""
+
+        def __init__(self):
+            super().__init__()
+            self.n, self.arr = z3.IntVal(0), z3.K(I, z3.IntVal(0))
+            self.bad = False
+
+        def clone_mut(self, cp):
+            c = OutList.__new__(OutList)
+            c.n, c.arr, c.bad = self.n, self.arr, self.bad
+            return c
+
+        def getattr(self, interp, st, attr, node):
+            if attr != "append":
+                raise Unsupported(f"out.{attr}")
+
+            def app(i, s, a, k, n):
+                me = i._relocate(s, self)
+                v = a[0]
+                if isinstance(v, tuple) and len(v) == 3 and v[0] == "result-of" and v[1] == "item._from_buffer":
+                    me.arr = z3.Store(me.arr, me.n, to_z3(v[2][1]))
+                else:
+                    me.bad = True  # something else than the item read through its type was stored
+                me.n = me.n + 1
+            yield st, T.XB._M(app)
+
+    obs = []
+    its = []
+    for dyn_dim in (False, True):
+        for static_items in (True, False):
+            lab = f"{'N' if dyn_dim else 's'}:{'static' if static_items else 'dynamic'}_items"
+            it = T.new_interp()
+            its.append(it)
+            it.class_home.update({"Array": ARR, "NumpyScalar": "xobjects/scalar.py"})
+            i64 = T.int64_scalar()
+            it.extern_names = {"Int64": i64, "object": T.ObjectBuiltin()}
+            XB.install_int64(it, i64)
+            st0 = State()
+            cls = T.array_class(st0, 1, (dyn_dim,), static_items, [0])
+            cls.attrs["_has_refs"] = False
+            sp = cls.spec
+            w, D = sp["w"], sp["D"]
+            buf = XB.XBuf("buf")
+            o = fresh_int("offset")
+            N = XB.W8(buf.mem, o + 8) if dyn_dim else sp["dims"][0]
+            pre = list(st0.pc) + [o >= 0, buf.cap >= 0, N >= 0, o + D + (8 * N if not static_items else 0) <= buf.cap]
+            m0 = buf.mem
+
+            def addr(j, buf=buf, o=o, D=D, w=w, static_items=static_items):
+                return o + D + j * w if static_items else o + XB.W8(buf.mem, o + D + 8 * j)
+            holder = {}
+
+            def ev_List(st, n, holder=holder):
+                if n.elts:
+                    raise Unsupported("non-empty list literal")
+                lst = OutList()
+                holder["out"] = lst
+                yield st, lst
+
+            def inv(st, K, holder=holder, addr=addr):
+                out = it._relocate(st, holder["out"])
+                j = z3.Int(fresh_name("j"))
+                return [("one_entry_per_visited_item", out.n == K),
+                        ("entries_are_the_items_in_index_order", z3.ForAll([j], z3.Implies(z3.And(0 <= j, j < K), out.arr[j] == addr(j))))]
+
+            def L_init(interp, st, k, node):
+                for nm, f in inv(st, z3.IntVal(0)):
+                    interp.oblige(st, f"inv{k}.init", f"{nm}[{lab}]", f, node.lineno)
+
+            def L_head(interp, st, holder=holder, N=N):
+                out = it._relocate(st, holder["out"])
+                K = fresh_int("visited")
+                out.n, out.arr = fresh_int("n_out"), z3.Array(fresh_name("out"), I, I)
+                st.assume(z3.And(0 <= K, K <= N))
+                for nm, f in inv(st, K):
+                    st.assume(f)
+                return {"K": K}
+
+            def L_alts(holder=holder, N=N):
+                def mk(st):
+                    K = st.ghost["__loop_ghost"]["K"]
+                    st.assume(K < N)  # __getitem__(K) did not raise: K is inside the shape (group array_handle)
+                    hh = it._relocate(st, holder["handle"])
+                    outs = [(s2, r) for s2, r in it.call_function(st, T.FuncVal(ARR, "Array.__getitem__", hh), [K], {}, None) if r.__class__.__name__ != "_NoReturn"]
+                    if len(outs) != 1 or outs[0][0] is not st:
+                        raise Unsupported("__getitem__ forked for an index inside the shape")
+                    return outs[0][1]
+                yield "next_item", mk
+
+            def L_pres(interp, st, g, label, elem, k, node, holder=holder):
+                for nm, f in inv(st, g["K"] + 1):
+                    interp.oblige(st, f"inv{k}.preserve", f"{nm}[{lab}]", f, node.lineno)
+                interp.oblige(st, f"inv{k}.preserve", f"entries_are_item_reads[{lab}]", z3.BoolVal(not it._relocate(st, holder["out"]).bad), node.lineno)
+
+            def L_exit(interp, st, g, N=N):
+                st.assume(g["K"] == N)  # the sequence protocol stops at the first IndexError: index N
+
+            loop = LoopSpecX(L_init, L_head, L_alts, L_pres, L_exit)
+            con = T._contract(ARR, "Array._from_buffer", [])
+            try:
+                for st, out in it.exec_function(con, {"cls": cls, "buffer": buf, "offset": o}, pre=pre):
+                    h = out[1]
+                    h.iterate = lambda interp, st_, s, loop=loop, h=h: loop.run(interp, st_, s, h)
+                    holder["handle"] = h
+                    it.obligations = []
+                    it.ev_List = ev_List  # from here on `[]` is the result list of _to_json
+                    it.contract = T._contract(ARR, "Array._to_json", [])
+                    for st2, res in it.call_function(st.clone(), T.FuncVal(ARR, "Array._to_json", it._relocate(st, h)), [], {}, None):
+                        ob = lambda c, g: it.oblige(st2, "post", f"{c}[{lab}]", g if not isinstance(g, bool) else z3.BoolVal(g))
+                        ok = isinstance(res, OutList)
+                        ob("returns_the_list", ok)
+                        if ok:
+                            r = it._relocate(st2, res)
+                            j = z3.Int(fresh_name("j"))
+                            ob("one_entry_per_item", r.n == N)
+                            ob("entry_j_is_item_j_read_at_its_documented_address", z3.ForAll([j], z3.Implies(z3.And(0 <= j, j < N), r.arr[j] == addr(j))))
+                            ob("buffer_not_written", z3.eq(it._relocate(st2, buf).mem, m0))
+            except HARNESS_ERRORS as e:
+                vc_array_to_json.undecided.append((lab, f"{type(e).__name__}: {e}"[:160]))
+            obs += it.obligations
+    vc_array_to_json.interps = its
+    return obs
+
+
+T.group("array_to_json", vc_array_to_json, [(T.ARR, "Array._to_json"), (T.ARR, "Array.__getitem__"), (T.ARR, "Array._get_offset")], ["C19"])
